@@ -34,6 +34,8 @@ fn level_of(check: &str) -> &'static str {
 fn worker(check: &str, tier: Tier, i: usize, n: usize, from: usize, only: Option<&str>) {
     vcore::env::install_panic_hook();
     vcore::env::set_poison(true);
+    // a runaway allocation of the subject must kill this worker only, not the machine
+    unsafe { let lim = libc::rlimit { rlim_cur: 12 << 30, rlim_max: 12 << 30 }; libc::setrlimit(libc::RLIMIT_AS, &lim); }
     enum Item { Ty(vcore::Entry), Seq(&'static str, Box<dyn seqs::SeqOps>), Mut(&'static str, &'static str, vcore::Entry) }
     let all: Vec<Item> = if check == "C16" { seqs::all().into_iter().map(|(id, o)| Item::Seq(id, o)).collect() }
         else if check == "C04" { universe::all().into_iter().map(Item::Ty).chain(mutants::all().into_iter().map(|(f, id, e)| Item::Mut(f, id, e))).collect() }
@@ -71,6 +73,8 @@ fn worker(check: &str, tier: Tier, i: usize, n: usize, from: usize, only: Option
     let mut o = out.lock();
     writeln!(o, "{}", json!({"t": "done"})).unwrap();
 }
+
+fn now_s() -> u64 { std::time::SystemTime::now().duration_since(std::time::UNIX_EPOCH).map(|d| d.as_secs()).unwrap_or(0) }
 
 #[derive(Default)]
 struct Agg {
@@ -114,12 +118,25 @@ fn run_slot(exe: &std::path::Path, check: &str, tier: Tier, i: usize, n: usize, 
         if let Some(o) = only { cmd.arg("--only").arg(o); }
         cmd.env("RUST_BACKTRACE", "0").stdout(Stdio::piped()).stderr(Stdio::null());
         let mut child = cmd.spawn().expect("spawn worker");
+        // watchdog: no output for too long while inside a type = the subject hangs
+        let pid = child.id() as i32;
+        let last = std::sync::Arc::new(std::sync::atomic::AtomicU64::new(now_s()));
+        let done_flag = std::sync::Arc::new(std::sync::atomic::AtomicBool::new(false));
+        let (l2, d2) = (last.clone(), done_flag.clone());
+        let limit: u64 = std::env::var("VERIF_HANG_SECS").ok().and_then(|s| s.parse().ok()).unwrap_or(if tier == Tier::Thorough { 1800 } else { 300 });
+        let wd = std::thread::spawn(move || {
+            while !d2.load(std::sync::atomic::Ordering::Relaxed) {
+                std::thread::sleep(std::time::Duration::from_millis(500));
+                if now_s().saturating_sub(l2.load(std::sync::atomic::Ordering::Relaxed)) > limit { unsafe { libc::kill(pid, libc::SIGKILL); } break; }
+            }
+        });
         let rd = BufReader::new(child.stdout.take().unwrap());
         let mut current: Option<(usize, String)> = None;
         let mut done = false;
         for l in rd.lines() {
             let l = match l { Ok(l) => l, Err(_) => break };
             let v: Value = match serde_json::from_str(&l) { Ok(v) => v, Err(_) => continue };
+            last.store(now_s(), std::sync::atomic::Ordering::Relaxed);
             match v["t"].as_str() {
                 Some("begin") => current = Some((v["k"].as_u64().unwrap() as usize, v["type_id"].as_str().unwrap().to_string())),
                 Some("type") => { current = None; lines.push(v); }
@@ -128,12 +145,15 @@ fn run_slot(exe: &std::path::Path, check: &str, tier: Tier, i: usize, n: usize, 
             }
         }
         let status = child.wait().expect("wait");
+        let hung = now_s().saturating_sub(last.load(std::sync::atomic::Ordering::Relaxed)) > limit;
+        done_flag.store(true, std::sync::atomic::Ordering::Relaxed);
+        let _ = wd.join();
         if done && status.success() { break; }
         match current {
             Some((k, ty)) => {
                 let how = {
                     use std::os::unix::process::ExitStatusExt;
-                    match status.signal() { Some(s) => format!("signal{}", s), None => format!("exit{}", status.code().unwrap_or(-1)) }
+                    if hung { format!("hang-over-{}s", limit) } else { match status.signal() { Some(s) => format!("signal{}", s), None => format!("exit{}", status.code().unwrap_or(-1)) } }
                 };
                 crashes.push((ty, how));
                 from = k + 1;
@@ -252,7 +272,7 @@ fn finish(check: &str, tier: Tier, agg: Agg, t0: Instant, partial: bool) {
     if !partial {
         // replay files of earlier runs of this check are stale
         if let Ok(rd) = std::fs::read_dir(&replay_dir) {
-            for e in rd.flatten() { let n = e.file_name().to_string_lossy().to_string(); if n.starts_with(&format!("{}-", check)) && !n.contains("-P") && !n.contains("-build") && !n.contains("-loom") && !n.contains("-nommap") { let _ = std::fs::remove_file(e.path()); } }
+            for e in rd.flatten() { let n = e.file_name().to_string_lossy().to_string(); if n.starts_with(&format!("{}-{}", check, std::env::var("VERIF_PROFILE_TAG").map(|t| format!("{}-", t)).unwrap_or_default())) && (std::env::var("VERIF_PROFILE_TAG").is_ok() || !n.contains("-rel-")) && !n.contains("-P") && !n.contains("-build") && !n.contains("-loom") && !n.contains("-nommap") { let _ = std::fs::remove_file(e.path()); } }
         }
     }
     let mut new_viol = 0u64;
@@ -265,7 +285,7 @@ fn finish(check: &str, tier: Tier, agg: Agg, t0: Instant, partial: bool) {
             continue;
         }
         new_viol += 1;
-        let path = format!("{}/{}-{:04}.json", replay_dir, check, n);
+        let path = format!("{}/{}-{}{:04}.json", replay_dir, check, std::env::var("VERIF_PROFILE_TAG").map(|t| format!("{}-", t)).unwrap_or_default(), n);
         let mut d = detail.clone();
         if let Value::Object(m) = &mut d { m.insert("key".into(), json!(key)); m.insert("occurrences".into(), json!(count)); m.insert("tier".into(), json!(tier.name())); }
         std::fs::write(&path, serde_json::to_string_pretty(&d).unwrap()).unwrap();
@@ -302,7 +322,8 @@ fn finish(check: &str, tier: Tier, agg: Agg, t0: Instant, partial: bool) {
         "violations": new_viol,
     });
     if !partial && check != "GOLDGEN" {
-        std::fs::write(format!("{}/evidence/{}.json", VERIF, check), serde_json::to_string_pretty(&ev).unwrap()).unwrap();
+        let tag = std::env::var("VERIF_PROFILE_TAG").map(|t| format!(".{}", t)).unwrap_or_default();
+        std::fs::write(format!("{}/evidence/{}{}.json", VERIF, check, tag), serde_json::to_string_pretty(&ev).unwrap()).unwrap();
     }
     if check == "GOLDGEN" {
         let dir = std::env::var("VERIF_GOLDEN_OUT").unwrap_or_else(|_| "/verif".into());
